@@ -57,6 +57,10 @@ def member(draw, idx):
         m["key"] = draw(st.integers(1, 1 << 30))
         m["text_pgs"] = draw(st.sampled_from([0, 0, 1, 5]))
         m["fixup_pgs"] = draw(st.sampled_from([0, 0, 2]))
+        if kind == "visor-file":
+            # the byte behind the 7-byte magic (NUL in the sample, a version digit or space elsewhere) and the regular-file type flags
+            m["magic_tail"] = draw(st.sampled_from([0, 0, 0, 0x30, 0x20]))
+            m["regtype"] = draw(st.sampled_from(["0", "0", "0", "\0", "7"]))
     if kind == "std-symlink":
         m["linkname"] = draw(st.sampled_from(["target", "../x/y", "/bin/sh"]))
     return m
@@ -132,7 +136,9 @@ def build(spec):
         k = m["kind"]
         real = len(h) - 512
         if k.startswith("visor"):
-            h[real + 257 : real + 265] = b"visor  \x00"
+            h[real + 257 : real + 265] = b"visor  " + bytes([m.get("magic_tail", 0)])
+            if m.get("regtype", "0") != "0":
+                h[real + 156] = ord(m["regtype"])
             off = offsets.get(i, 0)
             h[real + 496 : real + 500] = struct.pack("<I", off)
             h[real + 504 : real + 512] = struct.pack("<II", m.get("text_pgs", 0), m.get("fixup_pgs", 0))
@@ -151,6 +157,8 @@ def build(spec):
         elif k in ("visor-empty", "std-empty"):
             data = b""
         typ = {"visor-dir": tarfile.DIRTYPE, "std-dir": tarfile.DIRTYPE, "std-symlink": tarfile.SYMTYPE}.get(k, tarfile.REGTYPE)
+        if k == "visor-file" and m.get("regtype", "0") != "0":
+            typ = m["regtype"].encode()
         expected.append((m["name"].rstrip("/"), typ, m.get("size", 0), data))
     return bytes(out), expected
 
@@ -164,7 +172,7 @@ def nontrivial(spec) -> bool:
 def read_all(t):
     res = []
     for m in t.getmembers():
-        f = t.extractfile(m) if m.isreg() else None
+        f = t.extractfile(m) if m.isreg() else None  # isreg(): REGTYPE, AREGTYPE, CONTTYPE
         res.append((m.name, m.type, m.size, f.read() if f is not None else None, m.linkname))
     return res
 
